@@ -177,10 +177,28 @@ pub fn generate_and_run(seed: u64, tier: &str, cases_w: &mut dyn Write, impl_w: 
 			record("reader that stores nothing (translate)", if r.is_ok() { "returned" } else { "clean panic" }, &mut st, cases_w, impl_w);
 		}
 	}
-	// which families to run: "all" (default), "none" (no panicking readers/writers), "only" (just those); the memcheck
+	// which families to run: "all" (default), "none" (no panicking readers/writers, no reader whose over-report makes xt
+	// itself panic), "only" (just the panicking readers), "overreport" (just those over-reports); the memcheck
 	// runs of the thorough tier separate them because a panic that unwinds through libyaml is a listed known finding
 	let panic_cases = std::env::var("XT_VERIF_PANIC_CASES").unwrap_or_else(|_| "all".to_string());
 	for data in &inputs {
+		// readers whose claim reaches and passes the end of the 16 KiB buffer they were given, lying from the first, second or
+		// third call, through the chunker and through a whole translation with the format named (xt's own slice index panics
+		// inside the read callback: a clean panic, which unwinds through libyaml)
+		if (panic_cases == "overreport" || panic_cases == "all") && data.len() <= 20000 {
+			for excess in [16384usize - 9, 16384 - 8, 16384, 16385, 20000, 1 << 20] {
+				for from_call in 0..3 {
+					let mk = || Liar { inner: SchedReader::new(data, Sched::Fixed(9), None), excess, from_call, calls: 0 };
+					let r = catch_unwind(AssertUnwindSafe(|| xt::verif::yaml_chunks(mk()).len()));
+					record("over-reporting past the buffer (chunker)", if r.is_ok() { "returned" } else { "clean panic" }, &mut st, cases_w, impl_w);
+					let r = catch_unwind(AssertUnwindSafe(|| xt::translate_reader(mk(), Some(xt::Format::Yaml), xt::Format::Json, io::sink()).is_ok()));
+					record("over-reporting past the buffer (translate)", if r.is_ok() { "returned" } else { "clean panic" }, &mut st, cases_w, impl_w);
+				}
+			}
+		}
+		if panic_cases == "overreport" {
+			continue;
+		}
 		if panic_cases == "only" {
 			for at in [0usize, 1, 2, 5] {
 				let mk = || PanicReader { inner: SchedReader::new(data, Sched::Fixed(11), None), at, calls: 0 };
@@ -250,17 +268,6 @@ pub fn generate_and_run(seed: u64, tier: &str, cases_w: &mut dyn Write, impl_w: 
 				xt::translate_reader(SchedReader::new(data, Sched::Fixed(7), None), Some(xt::Format::Yaml), xt::Format::Json, PanicWriter { after, seen: 0 }).is_ok()
 			}));
 			record("panicking writer", if r.is_ok() { "returned" } else { "clean panic" }, &mut st, cases_w, impl_w);
-		}
-		// readers whose claim reaches and passes the end of the 16 KiB buffer they were given, lying from the first, second or
-		// third call, through the chunker and through a whole translation with the format named
-		for excess in [16384usize - 9, 16384 - 8, 16384, 16385, 20000, 1 << 20] {
-			for from_call in 0..3 {
-				let mk = || Liar { inner: SchedReader::new(data, Sched::Fixed(9), None), excess, from_call, calls: 0 };
-				let r = catch_unwind(AssertUnwindSafe(|| xt::verif::yaml_chunks(mk()).len()));
-				record("over-reporting past the buffer (chunker)", if r.is_ok() { "returned" } else { "clean panic" }, &mut st, cases_w, impl_w);
-				let r = catch_unwind(AssertUnwindSafe(|| xt::translate_reader(mk(), Some(xt::Format::Yaml), xt::Format::Json, io::sink()).is_ok()));
-				record("over-reporting past the buffer (translate)", if r.is_ok() { "returned" } else { "clean panic" }, &mut st, cases_w, impl_w);
-			}
 		}
 		// a reader that over-reports by more than libyaml's whole buffer
 		let mk = || Liar { inner: SchedReader::new(data, Sched::Full, None), excess: 1 << 20, from_call: 0, calls: 0 };
